@@ -416,3 +416,47 @@ def random_builtin_programs(seed, n, draws=12):
         src = '[' + ', '.join([e] * draws) + ']\n[l, hi, hd]'
         out.append({'names': [names], 'host': {}, 'calls': [{'src': src, 'n': 0, 'max': 1000}]})
     return out
+
+
+# ---- C02: confinement ---------------------------------------------------------------------------
+ATTRS = ['upper', 'copy', 'keys', 'append', 'real', 'as_tuple', 'encode', 'format', '__class__', '__len__', 'items', 'split', 'join', 'pop',
+         'imag', 'numerator', 'conjugate', 'get', 'sort', 'x', 'name', '0', 'a']
+
+
+def confinement_programs(seed, n):
+    """Every builtin on every shape of argument (attribute-like and format-like strings, callables, nested
+    containers, slices) and compositions, plus attribute-like %a.b% names whose head is bound; the host binds
+    only plain data, so nothing but plain data, builtins and the program's own lambdas may ever appear."""
+    r = random.Random(seed)
+    from .checks import SPEC_BUILTINS
+    out = []
+    for i in range(n):
+        names = {'s': r.choice(['abc', '{0.__class__}', '__class__', '%s %r', 'a.b']), 'l': [1, [2, 'x'], {'k': 3}], 'd': {'a': [1, 2], 'b': {'c': None}},
+                 'n': r.choice([Decimal('2.5'), 7, 1.5, True]), 'user': {'name': 'bob', 'tags': ['x']}, 't': (1, [2])}
+        args = ['s', 'l', 'd', 'n', 'user', 't', 'l[1]', 'd["a"]', 'l[0:2]', '"__class__"', '"{0.__class__.__mro__}"', '"%s"', 'None', 'True', '0', '-1', '1.5',
+                '[]', '{}', 'v => v', 'len', 'str', 'dict', 'list', 'keys', '(p, q) => p', '"a"', 'user["name"]', 'items(d)', 'enumerate(l)']
+        lines = []
+        for _ in range(r.randrange(1, 4)):
+            c = r.randrange(10)
+            if c < 5:
+                f = r.choice(SPEC_BUILTINS)
+                k = r.choice([0, 1, 1, 2, 2, 3])
+                lines.append('%s = %s(%s)' % (r.choice(['r1', 'r2']), f, ', '.join(r.choice(args) for _ in range(k))))
+            elif c == 5:
+                f, g = r.choice(SPEC_BUILTINS), r.choice(SPEC_BUILTINS)
+                lines.append('r3 = %s(%s(%s))' % (f, g, r.choice(args)))
+            elif c == 6:
+                lines.append('r4 = (%s | %s | %s)' % (r.choice(args[:9]), r.choice(['keys', 'values', 'items', 'sorted', 'reversed', 'enumerate', 'str', 'len']),
+                                                      r.choice(['str', 'len', 'sorted', 'reversed', 'pretty', 'list'])))
+            elif c == 7:
+                h = r.choice(['s', 'l', 'd', 'n', 'user', 'user.name', 't', 'r1'])
+                lines.append(r.choice(['r5 = %%%s.%s%%', '%%%s.%s%%', 'r5 = [%%%s.%s%%]', 'f = %%%s.%s%%\nf()']) % (h, r.choice(ATTRS)))
+            elif c == 8:
+                lines.append(r.choice(['f = len\nr6 = f(l)', 'g = [str, len, keys]\nr6 = g', 'h = {"f": v => v}\nr6 = h', 'r6 = match("abc", "(b)")',
+                                       'r6 = match_groups("abc", "(b)(c)")', 'r6 = match_all("a1b22", "\\\\d+")', 'r6 = [shuffle(l), rand(l)]',
+                                       'r6 = sorted(d)', 'r6 = l[::-1] if False else l[0:1]', 'r6 = pretty(user)', 'r6 = "{0.__class__}" + n']))
+            else:
+                lines.append('r7 = [%s]' % ', '.join(r.choice(args) for _ in range(r.randrange(1, 4))))
+        lines.append('[r1, r2]' if r.random() < 0.3 else 'None')
+        out.append({'names': [names], 'host': {}, 'calls': [{'src': '\n'.join(lines), 'n': 0, 'max': 600}]})
+    return out
